@@ -8,3 +8,8 @@ import Ndt.Model.Poly
 import Ndt.Model.Richardson
 import Ndt.Proofs.Poly
 import Ndt.Props.C07
+import Ndt.Gen.Prelude
+import Ndt.Gen.LogRule
+import Ndt.Gen.Steps
+import Ndt.Model.Rule
+import Ndt.Props.C06
